@@ -371,6 +371,16 @@ func (h *H) offerForged(m *Mon, v variant) {
 	}
 	h.R.Count("forge.offers", 1)
 	synced := h.sameHead()
+	if synced && m == h.Fol {
+		// a block that only lacks the publisher's signature is refused by every configuration:
+		// the publisher-mode node is offered it too
+		if sigOnlyConds(conds) {
+			h.R.Count("forge.signature-to-publisher", 1)
+			if h.offer(h.Pub, v.B, "forge:"+v.Label) {
+				h.diverged = true
+			}
+		}
+	}
 	ok := h.offer(m, v.B, "forge:"+v.Label)
 	if ok {
 		h.R.Count("forge.accepted."+v.Label, 1)
@@ -413,6 +423,12 @@ func (h *H) stepProbe() {
 			continue
 		}
 		h.R.Count("probe.offers", 1)
+		if synced && !h.diverged && sigOnlyConds(conds) {
+			h.R.Count("forge.signature-to-publisher", 1)
+			if h.offer(h.Pub, v.B, "probe:"+v.Label) {
+				h.diverged = true
+			}
+		}
 		if h.offer(m, v.B, "probe:"+v.Label) {
 			h.R.Count("probe.accepted."+v.Label, 1)
 			h.diverged = true
@@ -440,4 +456,14 @@ func (h *H) stepProbe() {
 		h.Anomaly("follower-rejects-direct-block", "probe control")
 	}
 	h.checkState(m, "probe-control")
+}
+
+// sigOnlyConds reports whether the publisher signature is the only thing wrong with a block
+func sigOnlyConds(conds []ledger.Cond) bool {
+	for _, c := range conds {
+		if c.Name != "signature" {
+			return false
+		}
+	}
+	return len(conds) > 0
 }
